@@ -5,6 +5,7 @@ import (
 	"context"
 	"errors"
 	"fmt"
+	"github.com/thushan/olla/internal/adapter/proxy/common"
 	"io"
 	"net"
 	"net/http"
@@ -259,9 +260,19 @@ func (h *RetryHandler) buildFinalError(availableEndpoints []*domain.Endpoint, ma
 	return fmt.Errorf("max attempts (%d) reached: %w", maxRetries, lastErr)
 }
 
+// ClientSideError marks a failure of the connection to the client (a write to it that was reset,
+// broke or timed out). Such an error looks like any other network error, but it says nothing
+// about the backend the response was coming from: it must not be counted against that endpoint.
+type ClientSideError = common.ClientSideError
+
 // IsConnectionError identifies transient network errors suitable for retry
 func IsConnectionError(err error) bool {
 	if err == nil {
+		return false
+	}
+
+	var clientSide *ClientSideError
+	if errors.As(err, &clientSide) {
 		return false
 	}
 
